@@ -15,6 +15,7 @@ import itertools
 from typing import Any, Callable, Dict, List, Optional, Sequence, Tuple
 
 from mc import refvm
+from mc.report import guard_harness as _guard
 from mc.report import add_sample, add_violation, count, new_part
 
 LEVEL = "exploration"
@@ -352,6 +353,7 @@ def check_program(items, form: str, part, defines=(), expanded_items=None, brack
         add_violation(part, f"assembler-raises/{form}/{family}", f"assembler raised {type(exc).__name__}: {str(exc)[:120]}", case)
         return
     except Exception as exc:
+        _guard(exc)
         add_violation(part, f"assembler-raises/{form}/{family}", f"assembler raised {type(exc).__name__}: {str(exc)[:120]}", case)
         return
     # the assembled subroutine is judged in the form the controller receives: encoded and decoded again (an operand left
@@ -362,12 +364,14 @@ def check_program(items, form: str, part, defines=(), expanded_items=None, brack
         if len(wire.instructions) != len(sub.instructions):
             raise ValueError(f"{len(sub.instructions)} instructions encode to {len(wire.instructions)}")
     except Exception as exc:
+        _guard(exc)
         add_violation(part, f"assembled-not-encodable/{form}/{family}", f"the assembled subroutine cannot be encoded for the controller: "
                       f"{type(exc).__name__}: {str(exc)[:120]}", case, {"assembled": [str(i) for i in sub.instructions]})
         return
     try:
         asm = refvm.program_from_subroutine(wire)
     except Exception as exc:
+        _guard(exc)
         add_violation(part, f"assembled-not-executable/{form}", f"assembled subroutine has operands that are not concrete: {exc}", case)
         return
     sp = new_part()
@@ -570,6 +574,7 @@ def shard_immediates(shard):
             sub = parse_text_subroutine(src, flavour=NVFlavour() if flav == "nv" else None)
             asm = refvm.program_from_subroutine(sub)
         except Exception as exc:
+            _guard(exc)
             add_violation(part, "assembler-raises/text/immediates", f"{type(exc).__name__}: {exc}", case)
             continue
         if want is not None and asm != [want]:
